@@ -278,6 +278,35 @@ def worker(payload):
                     if any(cl != (len(ids), R) for cl in calls) or not calls:
                         fail('draw table dimensioned (individuals, R) [BIOGEME]', dict(case, threads=threads),
                              [len(ids), R], calls[:4])
+                    if threads == 1 and no == 0 and len(ids) >= 2:
+                        # history: an estimation with bootstrapping (the engine is given resampled individual maps) and THEN the
+                        # likelihood again on the same object: still every individual exactly once over its own rows
+                        cases += 1
+                        try:
+                            p2 = Parameters()
+                            p2.set_value('number_of_draws', R, section='MonteCarlo')
+                            p2.set_value('bootstrap_samples', 3, section='Estimation')
+                            p2.set_value('save_iterations', False, section='Estimation')
+                            p2.set_value('max_iterations', 2, section='SimpleBounds')
+                            p2.set_value('generate_html', False, section='Output')
+                            p2.set_value('generate_pickle', False, section='Output')
+                            bg2 = BIOGEME(d, {'log_like': log(MonteCarlo(PanelLikelihoodTrajectory(formula(True))))}, parameters=p2)
+                            bg2.modelName = 'c09boot'
+                            cwd_ = os.getcwd()
+                            os.chdir(tempfile.mkdtemp(prefix='c09boot_'))
+                            try:
+                                np.random.seed(7)
+                                bg2.estimate(run_bootstrap=True)
+                            finally:
+                                os.chdir(cwd_)
+                            ll2 = bg2.calculate_likelihood([b1v, b2v], scaled=False)
+                            if not close(ll2, want_ll):
+                                fail('history: the likelihood after an estimation with bootstrapping still runs over every individual once',
+                                     dict(case, history='estimate(run_bootstrap=True); calculate_likelihood'), want_ll, float(ll2))
+                        except Exception as e:
+                            fail('history: the likelihood after an estimation with bootstrapping still runs over every individual once',
+                                 dict(case, history='estimate(run_bootstrap=True); calculate_likelihood'), want_ll,
+                                 '%s: %s' % (type(e).__name__, str(e)[:200]))
                     sim = bg.simulate({'b1': b1v, 'b2': b2v})
                     okk = list(sim.index) == list(d.individualMap.index) and len(sim) == len(ids)
                     if okk:
